@@ -1,0 +1,66 @@
+//go:build verif
+
+// Contracts for package writer.
+package writer
+
+// C18: a write never changes the writer's configuration, the per-call options
+// it is handed, or the package defaults (frame condition)
+//@ func Writer.WriteStreamWithOptions
+//@   props C07, C18
+//@   assigns \nothing
+//@   requires w.Options != nil && o != nil && defaultOptions != nil && defaultOptions.SerializeOptions != nil && defaultOptions.RenderOptions != nil
+
+//@ func GetFormatSerializer
+//@   props C07
+
+//@ global serializers trusted-concurrent
+//@ global once trusted-concurrent
+//@ global defaultOptions immutable-after-init
+//@ package-props C17
+
+// ---------------------------------------------------------------------------
+// C18: configuration isolation. An option may write the instance it is applied
+// to and that instance's option object, nothing else.
+// ---------------------------------------------------------------------------
+//@ type WriterOption(w *Writer)
+//@   requires w != nil && w.Options != nil
+//@   assigns w.Storage, w.Options.*, (w.Options.formatOptions)[*]
+//@   ensures [C18:option:map] w.Options.formatOptions == old(w.Options.formatOptions) || fresh(w.Options.formatOptions)
+
+//@ func WithRenderOptions$1
+//@   props C18
+//@   requires w != nil && w.Options != nil
+//@   assigns w.Storage, w.Options.*, (w.Options.formatOptions)[*]
+//@   ensures [C18:option:map] w.Options.formatOptions == old(w.Options.formatOptions) || fresh(w.Options.formatOptions)
+//@ func WithSerializeOptions$1
+//@   props C18
+//@   requires w != nil && w.Options != nil
+//@   assigns w.Storage, w.Options.*, (w.Options.formatOptions)[*]
+//@   ensures [C18:option:map] w.Options.formatOptions == old(w.Options.formatOptions) || fresh(w.Options.formatOptions)
+//@ func WithFormatOptions$1
+//@   props C18
+//@   requires w != nil && w.Options != nil
+//@   assigns w.Storage, w.Options.*, (w.Options.formatOptions)[*]
+//@   ensures [C18:option:map] w.Options.formatOptions == old(w.Options.formatOptions) || fresh(w.Options.formatOptions)
+//@ func WithFormat$1
+//@   props C18
+//@   requires w != nil && w.Options != nil
+//@   assigns w.Storage, w.Options.*, (w.Options.formatOptions)[*]
+//@   ensures [C18:option:map] w.Options.formatOptions == old(w.Options.formatOptions) || fresh(w.Options.formatOptions)
+//@ func WithStoreRetriever$1
+//@   props C18
+//@   requires w != nil && w.Options != nil
+//@   assigns w.Storage, w.Options.*, (w.Options.formatOptions)[*]
+//@   ensures [C18:option:map] w.Options.formatOptions == old(w.Options.formatOptions) || fresh(w.Options.formatOptions)
+//@ func WithStoreOptions$1
+//@   props C18
+//@   requires w != nil && w.Options != nil
+//@   assigns w.Storage, w.Options.*, (w.Options.formatOptions)[*]
+//@   ensures [C18:option:map] w.Options.formatOptions == old(w.Options.formatOptions) || fresh(w.Options.formatOptions)
+
+// a constructor starts from the library defaults and never writes them
+//@ func New
+//@   props C18
+//@   requires defaultOptions != nil
+//@   assigns global(serializers), global(once)
+//@   ensures [C18:new:freshInstance] result != nil && fresh(result) && result.Options != nil && fresh(result.Options)
